@@ -302,5 +302,7 @@ func (m *Menu) Reset() {
 	m.sink = false
 	m.keep = true
 	m.pageCount = 0
-	m.reset()
+	m.browse = BrowseConfig{}
+	m.canNext = false
+	m.canPrevious = false
 }
